@@ -94,6 +94,23 @@ package redisemu
 //@ modifies *
 //@ loop 1 invariant 0 <= count && count <= 64*ri1
 //@ ensures internal [C18] empty: valid == VALUE_EXISTS && len(strBytes) == 0 ==> output.data == respInt(0)
+// the range arguments as given (before normalisation); gBcRanged: the handler got as far as looking at them
+//@ ghost gBcStart int
+//@ ghost gBcEnd int
+//@ ghost gBcRanged bool
+//@ ghost gBcLen int
+//@ ghostafter "strBytes, valid := ctx.dsc.getKeyBytes(keyName)" : gBcRanged = false
+//@ ghostbefore "if bitMode {" : gBcStart = start
+//@ ghostbefore "if bitMode {" : gBcEnd = end
+//@ ghostbefore "if bitMode {" : gBcRanged = true
+//@ ghostbefore "if bitMode {" : gBcLen = length
+//@ ghostafter "length *= 8" : gBcLen = length
+// BITCOUNT counts exactly the bytes (or, with BIT, the bits) start..end after the redis normalisation of the two indexes (the GETRANGE rules, spec functions in zz_spec_verif.go)
+//@ ensures internal [C18] range.empty: gBcRanged && specRangeEmpty(gBcLen, gBcStart, gBcEnd) ==> output.data == respInt(0)
+//@ assertbefore "output.data = respInt(countSetBitRange(" [C18] bit.window: length == len(strBytes)*8 && !specRangeEmpty(length, gBcStart, gBcEnd) && start == specRangeFrom(length, gBcStart) && end == specRangeLast(length, gBcEnd)
+//@ assertbefore "count := 0" [C18] byte.window: length == len(strBytes) && !specRangeEmpty(length, gBcStart, gBcEnd) && start == specRangeFrom(length, gBcStart) && end == specRangeLast(length, gBcEnd)
+//@ loop 1 invariant [C18] bytes.sum: count == bcnt(strBytes, start, start + ri1)
+//@ assertbefore "output.data = respInt(count)" [C18] bytes.counted: count == bcnt(strBytes, start, end + 1)
 
 // C18 / C13: SETBIT and BITFIELD hand the store well-formed sub-commands only
 // (width 1..64, unsigned at most 63, bit offset inside the 512MB limit, end
